@@ -59,7 +59,64 @@ fn triple<O: crate::proto::Tok + Clone>(out: &[(O, O, O)]) -> String {
     format!("{};{};{}", toks(&a), toks(&b), toks(&c))
 }
 
+/// relational run `c04_big f=<trend fn> n=<len>`: a window of `n` null-free observations (tens of
+/// thousands: no exact model value is computed for them). The statistic at the last position of
+/// `x[i] = 3 + i/1000 ± 1/2` is compared with a centred two-pass least-squares fit in f64 over the
+/// times 1..=n (rel. 1e-6). The integer counters of the kernels (`n`, `n² + n`, `2n + 1` and their
+/// products) must not overflow for any window a `usize` length allows in practice. `OK` | `NE:<got>:<want>` | `P`
+fn run_big(f: &str, n: usize) -> String {
+    let data: Vec<f64> = (0..n).map(|i| 3.0 + 0.001 * i as f64 + if i % 2 == 0 { 0.5 } else { -0.5 }).collect();
+    let res = std::panic::catch_unwind(|| -> Option<f64> {
+        let out: Vec<f64> = match f {
+            "ts_vreg" => data.ts_vreg(n, Some(2)),
+            "ts_vtsf" => data.ts_vtsf(n, Some(2)),
+            "ts_vreg_slope" => data.ts_vreg_slope(n, Some(2)),
+            "ts_vreg_intercept" => data.ts_vreg_intercept(n, Some(2)),
+            "ts_vreg_resid_mean" => data.ts_vreg_resid_mean(n, Some(2)),
+            _ => return None,
+        };
+        if out.is_empty() { None } else { Some(out[out.len() - 1]) }
+    });
+    let got = match res {
+        Ok(Some(g)) => g,
+        Ok(None) => return "?badcase".into(),
+        Err(_) => return "P".into(),
+    };
+    let nf = n as f64;
+    let mut total = 0f64;
+    for x in data.iter() {
+        total += *x;
+    }
+    let (mt, mx) = ((nf + 1.) / 2., total / nf);
+    let (mut stt, mut stx) = (0f64, 0f64);
+    for (i, x) in data.iter().enumerate() {
+        let t = (i + 1) as f64 - mt;
+        stt += t * t;
+        stx += t * (x - mx);
+    }
+    let slope = stx / stt;
+    let intercept = mx - slope * mt;
+    let want = match f {
+        "ts_vreg" => intercept + slope * nf,
+        "ts_vtsf" => intercept + slope * (nf + 1.),
+        "ts_vreg_slope" => slope,
+        "ts_vreg_intercept" => intercept,
+        _ => {
+            let mut sse = 0f64;
+            for (i, x) in data.iter().enumerate() {
+                let e = x - intercept - slope * (i + 1) as f64;
+                sse += e * e;
+            }
+            sse / nf
+        },
+    };
+    if (got - want).abs() <= 1e-6 * want.abs().max(1e-3) { "OK".into() } else { format!("NE:{:e}:{:e}", got, want) }
+}
+
 pub fn run(r: &Req) -> Option<String> {
+    if r.f == "c04_big" {
+        return Some(run_big(r.s("f"), r.usize("n")));
+    }
     let w = r.usize("w");
     let mp = r.opt_usize("mp");
     let deque = r.s("b") == "deque";
@@ -135,6 +192,9 @@ fn is_two(f: &str) -> bool {
 
 pub fn valid_case(r: &Req) -> bool {
     let f = r.f.as_str();
+    if f == "c04_big" {
+        return FNS1.contains(&r.s("f")) && r.usize("n") >= 2;
+    }
     if !(is_two(f) || FNS1.contains(&f)) {
         return false;
     }
@@ -349,6 +409,12 @@ const P5: &[(&str, &str)] = &[("_", "1"), ("2", "_"), ("0", "0"), ("1", "2"), ("
 pub fn generate(tier: &str, rng: &mut Rng) -> (Vec<String>, bool) {
     let mut out = vec![];
     let thorough = tier == "thorough";
+    // long windows (relational run): around the length from which 2n^4 no longer fits a usize (55 109), and beyond
+    for f in FNS1 {
+        for n in [9_000usize, 55_108, 55_109, 56_000].iter().chain(if thorough { [120_000usize, 400_000].iter() } else { [].iter() }) {
+            out.push(format!("c04_big f={} n={}", f, n));
+        }
+    }
     let vals = ["_", "0", "1", "2"];
     let mut p16: Vec<(&str, &str)> = vec![];
     for a in vals {
@@ -451,7 +517,7 @@ pub fn generate(tier: &str, rng: &mut Rng) -> (Vec<String>, bool) {
 pub fn rule(tier: &str) -> String {
     let thorough = tier == "thorough";
     format!(
-        "13 entry points (ts_vcov, ts_vcorr, 6 ts_vregx_*, 5 trend ts_vreg*/ts_vtsf) on Vec input (two-phase driver) with element types rotated over f64/Option<f64>/i32/Option<i32> x f64/Option<f64>, outputs f64/Option<f64>, and 1 case in 8 of the null-free ones on VecDeque (iterator driver). \
+        "13 entry points (ts_vcov, ts_vcorr, 6 ts_vregx_*, 5 trend ts_vreg*/ts_vtsf) on Vec input (two-phase driver) with element types rotated over f64/Option<f64>/i32/Option<i32> x f64/Option<f64>, outputs f64/Option<f64>, and 1 case in 8 of the null-free ones on VecDeque (iterator driver). Relational run c04_big: the five trend statistics at the end of a null-free window of 9 000 / 55 108 / 55 109 / 56 000 observations (thorough: also 120 000 and 400 000) against a centred two-pass least-squares fit in f64 (counters n, n^2+n, 2n+1 and their products must not overflow; F48). \
 Exhaustive streams: (A) every pair of equal-length series over {{null,0,1,2}}^2 up to length {}, every window 1..=len+2, every min_periods in {{omitted}} U 0..=w, all 8 two-series functions; {}\
 (C) every pair of series of length {} over the 5 positions {{(null,1),(2,null),(0,0),(1,2),(2,1)}} (independent null patterns, a non-collinear triple), every window 1..=len+{}, min_periods {}; \
 (D) trend family: every series over {} up to length {}, every window 1..=len+2, every min_periods. \
